@@ -226,7 +226,7 @@ Definition enabled (s : rstate) : list label :=
 Definition msg_weight (m : msg) : nat :=
   match m with Token => 2 | Result _ Ok => 3 | Result _ Aborted => 7 end.
 Definition caller_weight (c : cstate) : nat :=
-  if owes c then 3 else 0.
+  match c with Enqueued_not_signalled | Replied_not_signalled _ _ => 3 | _ => 0 end.
 Definition loop_weight (l : loopst) : nat :=
   match l with Idle => 0 | Dispatching => 1 | Delivering _ _ => 2 end.
 Definition potential (s : rstate) : nat :=
